@@ -44,6 +44,8 @@ def decorate(rnd, n, ev, ops):
             out.append({"o": "raise", "a": o["a"], "via": via, "t": rnd.randint(1, n) if via in ("self", "async") else 0})
         elif o["o"] == "batch":
             out.append({"o": "batch", "a": o["a"], "ops": [{"o": x["o"], "a": x["a"]} for x in o["ops"]]})
+        elif o["o"] == "burst":
+            out.append({"o": "burst", "a": o["a"], "n": o["n"]})
         elif o["o"] == "race":
             out.append({"o": "race", "a": 0, "ops": [{"o": x["o"], "a": x["a"]} for x in o["ops"]],
                         "da": o.get("da", rnd.randrange(8)), "db": o.get("db", rnd.randrange(256))})
@@ -304,6 +306,24 @@ def race_scripts(rnd, rounds):
     return out
 
 
+def burst_scripts(rnd):
+    """Loop 1 subscribes first (lowest pipe descriptors) and is held; S is raised 1200 times one at a time (the driver has
+    shrunk the pipes to one page = 1024 numbers, so loop 1's pipe overflows): the two events of loop 2 must get every single
+    delivery; then loop 1 is released (whatever it still reads is accepted) and a last delivery must reach everybody."""
+    out = []
+    for eng in ENGINES:
+        s0 = rnd.randint(1, 3)
+        ev = [{"L": 1, "sigs": [s0], "os": False, "prog": []}, {"L": 2, "sigs": [s0], "os": False, "prog": []},
+              {"L": 2, "sigs": sorted({s0, s0 % 3 + 1}), "os": False, "prog": []}]
+        ops = [{"o": "enable", "a": 1}, {"o": "enable", "a": 2}, {"o": "enable", "a": 3}, {"o": "raise", "a": s0},
+               {"o": "hold", "a": 1}, {"o": "burst", "a": s0, "n": 1200}, {"o": "release", "a": 1}, {"o": "raise", "a": s0}]
+        sc = decorate(rnd, 2, ev, ops)
+        sc["eng"] = [rnd.choice(ENGINES), eng]
+        sc["kind"][s0 - 1] = rnd.choice(["info", "plain", "ign", "inforh"])
+        out.append(sc)
+    return out
+
+
 def script_of_trace(lines):
     """--replay: rebuild the driver script from a recorded execution."""
     sc = None
@@ -322,6 +342,8 @@ def script_of_trace(lines):
             sc["ops"].append({"o": e["e"], "a": e["ev"]})
         elif e["e"] == "raise":
             sc["ops"].append({"o": "raise", "a": e["s"], "via": e["via"], "t": e["t"]})
+        elif e["e"] == "burst":
+            sc["ops"].append({"o": "burst", "a": e["s"], "n": e["n"]})
         elif e["e"] == "noraise":
             sc["ops"].append({"o": "raise", "a": e["s"], "via": "main", "t": 0})
         elif e["e"] == "race":
@@ -494,6 +516,7 @@ def run(ctx):
     rscripts = wide_scripts(rnd) + [random_script(rnd, nops, wide=i < nwide) for i in range(nexec)]
     rscripts += cb_scripts(rnd) + [random_cb_script(rnd, nops) for _ in range(nexec // 2)]   # callbacks that (un)subscribe, batches, held loops
     rscripts += race_scripts(rnd, 160 if ctx.quick() else 1200)   # concurrent last-unsubscribe / first-subscribe of two loops
+    rscripts += burst_scripts(rnd)                                # a held loop's pipe overflows, the other loops keep getting everything
     rnd.shuffle(rscripts)                                         # spread the expensive ones over the shards
     ok, tr = run_scripts(ctx, exe, rscripts, "random", "%d random histories of %d steps" % (len(rscripts), nops), False)
     if ok:
